@@ -444,14 +444,27 @@ class LangServer:
                     )
                     # Setup renaming
                     if use_info.rename_map:
-                        rename_reversed = {
-                            value: key for (key, value) in use_info.rename_map.items()
-                        }
+                        # An entity can be visible under several local names and,
+                        # beside them, under its own name
+                        rename_reversed: dict[str, list[str]] = {}
+                        for key, value in use_info.rename_map.items():
+                            if key != value:
+                                rename_reversed.setdefault(value, []).append(key)
                         for tmp_obj in tmp_list:
-                            var_list.append(tmp_obj)
-                            rename_list.append(
-                                rename_reversed.get(tmp_obj.name.lower(), None)
-                            )
+                            obj_name = tmp_obj.name.lower()
+                            local_names = rename_reversed.get(obj_name, [])
+                            for local_name in local_names:
+                                var_list.append(tmp_obj)
+                                rename_list.append(local_name)
+                            if not local_names or (
+                                use_info.rename_map.get(obj_name, obj_name) == obj_name
+                                and (
+                                    not use_info.only_list
+                                    or obj_name in use_info.only_list
+                                )
+                            ):
+                                var_list.append(tmp_obj)
+                                rename_list.append(None)
                     else:
                         var_list += tmp_list
                         rename_list += [None for _ in tmp_list]
